@@ -80,6 +80,8 @@ class ContractMixin:
             return V(INT, ops.to_int_term(v))
         if isinstance(kind, Ref) and v.kind == NONE:
             return V(kind, z3.IntVal(0))
+        if isinstance(kind, Opaque) and kind.sname == "Val" and not (isinstance(v.kind, Opaque) and v.kind.sname == "Val"):
+            return self.box_val(v, st)
         if isinstance(kind, Opaque) and kind.sname == "Type" and v.kind == FN:
             tv = self.as_type(v)
             if tv is not None:
@@ -142,11 +144,17 @@ class ContractMixin:
                 continue
             env[n] = self.coerce_arg(env[n], parse_kind(pk, self.reg.opaque), st, f"{c.qualname}.{n}")
         self.used_contracts.add(c.qualname)
+        for nm in c.caller_env:
+            if nm in st.env and nm not in env:
+                env[nm] = st.env[nm]
         pre = st.fork()
         # preconditions
         for lab, txt in c.requires.items():
             g = self.spec_goal(txt, env, st)
             self.oblige(st, "pre", f"{c.qualname}.{lab}", g, node, note=txt)
+            if "forall" in txt:
+                # the goal was proved for a fresh constant: what holds afterwards is the quantified clause
+                st.assume(self.spec_assume(txt, env, st))
         # effects: frame + havoc
         for entry in c.modifies:
             if entry == "fresh":
@@ -209,6 +217,9 @@ class ContractMixin:
                 # a returned iterator / generator has not been iterated yet
                 st.assume(z3.Not(self.ghost_flag(st, res.term, "consumed")))
         env2 = dict(env)
+        for nm in c.caller_env:
+            if nm in st.env and nm not in env2:
+                env2[nm] = st.env[nm]
         env2["result"] = res
         for wname, (_gv, wkind) in c.witnesses.items():
             nf = self.no_frame
@@ -223,7 +234,12 @@ class ContractMixin:
             self.no_frame = nf
             env2[wname] = wl
             st.env["WIT_" + wname] = wl  # ghost: the callee's existential witness, usable in the caller's proves/invariants
-        for lab, txt in c.ensures.items():
+        all_ens = dict(c.ensures)
+        if c.overrides and c.overrides in self.reg.contracts:
+            # what the interface promises holds for every implementation (each is verified against it)
+            for lab, txt in self.reg.contracts[c.overrides].ensures.items():
+                all_ens.setdefault("iface." + lab, txt)
+        for lab, txt in all_ens.items():
             sg = dict(st.ghost)
             st.ghost["__top0__"] = pre.top
             try:
@@ -262,6 +278,40 @@ class ContractMixin:
             return ks
 
         return inst
+
+    def box_val(self, v: V, st) -> V:
+        """Inject a Python value into the opaque sort of program values (Val): one injective constructor per
+        dynamic type, so that 'exactly the declared base type' is expressible (box_bool(b) is not an int value)."""
+        VAL = Opaque("Val")
+        if v.kind == INT:
+            return V(VAL, z3.Function("box_int", I, VAL.sort())(v.term))
+        if v.kind == REAL:
+            return V(VAL, z3.Function("box_float", z3.RealSort(), VAL.sort())(v.term))
+        if v.kind == BOOL:
+            return V(VAL, z3.Function("box_bool", z3.BoolSort(), VAL.sort())(v.term))
+        if v.kind == NONE:
+            return V(VAL, z3.Const("box_none", VAL.sort()))
+        if isinstance(v.kind, Opaque) and v.kind.sname == "Str":
+            return V(VAL, z3.Function("box_str", v.kind.sort(), VAL.sort())(v.term))
+        if is_list(v.kind):
+            tag = "box_tuple" if getattr(v.kind.target, "is_tuple", False) else "box_list"
+            bx = V(VAL, z3.Function(tag, I, VAL.sort())(v.term))
+            hook = self.reg.hooks.get(tag)
+            if hook is not None:
+                hook(self, st, v, bx)
+            return bx
+        if isinstance(v.kind, Ref):
+            return V(VAL, z3.Function("box_obj", I, VAL.sort())(v.term))
+        if isinstance(v.kind, Tup):
+            items = [self.box_val(x, st) for x in v.term]
+            nf = self.no_frame
+            self.no_frame = True
+            try:
+                lst = self.list_from_values(st, items) if items else self.new_list(st, VAL)
+            finally:
+                self.no_frame = nf
+            return V(VAL, z3.Function("box_tuple", I, VAL.sort())(lst.term))
+        raise Unsupported(f"cannot treat a {v.kind} as a program value")
 
     def _collect_consts(self, v: V, out: list):
         if isinstance(v.kind, Tup):
